@@ -275,16 +275,16 @@ impl Report {
         for (k, v) in &self.counters {
             eprintln!("    {k} = {v}");
         }
-        if !self.machinery_errors.is_empty() {
-            for m in &self.machinery_errors {
-                eprintln!("MACHINERY-ERROR: {m}");
-            }
-            return 2;
+        for m in &self.machinery_errors {
+            eprintln!("MACHINERY-ERROR: {m}");
         }
-        if fresh.is_empty() {
-            0
-        } else {
+        // a confirmed violation is a verdict even if some other part of the run had trouble
+        if !fresh.is_empty() {
             1
+        } else if !self.machinery_errors.is_empty() {
+            2
+        } else {
+            0
         }
     }
 }
